@@ -122,6 +122,14 @@ func (r *RNG) AttrValue() attribute.Value {
 		}
 		return attribute.StringSliceValue(s)
 	default:
+		if r.Bool() {
+			n := r.sliceLen() % 6
+			s := make([]int, n)
+			for i := range s {
+				s[i] = r.Range(-3, 3)
+			}
+			return attribute.IntSliceValue(s)
+		}
 		return attribute.IntValue(r.Range(-3, 3))
 	}
 }
